@@ -66,7 +66,8 @@ class Concretizer:
     def __init__(self, engine, model: z3.ModelRef, state: State, probes, attr_reads, statics: Dict[int, Any]):
         self.e = engine
         self.m = model
-        self.st = state
+        from .core import State
+        self.st = State()               # the initial heap arrays (H_dict, H_dlen, H_seq)
         self.probes = probes
         self.attr_reads = attr_reads
         self.statics = statics
@@ -147,9 +148,7 @@ class Concretizer:
         for n in sorted(names):
             if n.startswith('$'):
                 continue
-            arr = self.st.attrs.get(n)
-            if arr is None:
-                continue
+            arr = z3.Array(f'H_attr_{n}', smt.I, Val)        # inputs live in the heap as it was on entry
             mv = self.ev(z3.Select(arr, z3.IntVal(rid)))
             if mv.decl().name() == 'absent':
                 continue
